@@ -418,8 +418,39 @@ def check_other(case, ctx: Ctx):
         else:
             fig = ctx.call("plotly map", h.plot, "map", backend="plotly")
             require(type(fig.data[0]).__name__ == "Heatmap", "trace_type", type(fig.data[0]).__name__)
-            z = np.asarray(fig.data[0].z, dtype=float)
-            require(z.shape == np.asarray(h.frequencies).shape and np.array_equal(z, np.asarray(h.frequencies, dtype=float)), "heatmap_z", f"{z.tolist()}")
+            hm = fig.data[0]
+            z = np.asarray(hm.z, dtype=float)
+            f2 = np.asarray(h.frequencies, dtype=float)
+            require(z.ndim == 2 and z.size == f2.size, "heatmap_z", f"{z.shape} cells for {f2.shape} bins")
+
+            def cell_intervals(coords, count):
+                # plotly: no coordinates -> cells centred on 0..n-1; n coordinates -> centres (boundaries half way); n+1 -> edges
+                if coords is None:
+                    c = np.arange(count, dtype=float)
+                else:
+                    c = np.asarray(coords, dtype=float)
+                if len(c) == count + 1:
+                    return [(c[k], c[k + 1]) for k in range(count)]
+                require(len(c) == count, "heatmap_coordinates", f"{len(c)} coordinates for {count} cells")
+                if count == 1:
+                    return [(c[0] - 0.5, c[0] + 0.5)]
+                mids = (c[:-1] + c[1:]) / 2
+                return [(c[0] - (mids[0] - c[0]) if k == 0 else mids[k - 1], c[-1] + (c[-1] - mids[-1]) if k == count - 1 else mids[k]) for k in range(count)]
+
+            rows, cols = z.shape  # plotly: z[row][column], rows along y, columns along x
+            xs, ys = cell_intervals(hm.x, cols), cell_intervals(hm.y, rows)
+            bx, by = np.asarray(h.bins[0], dtype=float), np.asarray(h.bins[1], dtype=float)
+            used = set()
+            for i in range(f2.shape[0]):
+                for j in range(f2.shape[1]):
+                    cx, cy = (bx[i][0] + bx[i][1]) / 2, (by[j][0] + by[j][1]) / 2
+                    col = [k for k, (a, b) in enumerate(xs) if a <= cx < b or (k == cols - 1 and cx == b)]
+                    row = [k for k, (a, b) in enumerate(ys) if a <= cy < b or (k == rows - 1 and cy == b)]
+                    require(len(col) == 1 and len(row) == 1, "heatmap_cell_not_at_bin",
+                            f"no heatmap cell covers the centre ({cx!r}, {cy!r}) of bin ({i},{j}); x cells {xs[:3]}.., y cells {ys[:3]}..")
+                    require((row[0], col[0]) not in used, "heatmap_cell_shared", f"bin ({i},{j}) shares the cell {(row[0], col[0])} with another bin")
+                    used.add((row[0], col[0]))
+                    require(z[row[0], col[0]] == f2[i, j], "heatmap_value", f"bin ({i},{j}) with content {f2[i, j]!r} is shown by a cell of value {z[row[0], col[0]]!r}")
             ctx.nt(z.size >= 6)
     elif be == "ascii":
         f = np.asarray(h.frequencies, dtype=float)
